@@ -46,6 +46,7 @@ macro_rules! program {
 
 pub mod c01;
 pub mod c02;
+pub mod c05;
 pub mod c07;
 pub mod c08;
 pub mod c09;
@@ -55,11 +56,13 @@ pub mod c15;
 pub mod c16;
 pub mod c17;
 pub mod c19;
+pub mod pairs;
 
 pub fn all() -> Vec<Prog> {
     let mut v = Vec::new();
     v.extend(c01::all());
     v.extend(c02::all());
+    v.extend(c05::all());
     v.extend(c07::all());
     v.extend(c08::all());
     v.extend(c09::all());
@@ -69,5 +72,6 @@ pub fn all() -> Vec<Prog> {
     v.extend(c16::all());
     v.extend(c17::all());
     v.extend(c19::all());
+    v.extend(pairs::all());
     v
 }
